@@ -24,7 +24,7 @@ def build(kind, vspecs, marked, type_expr, new, mark_single=False):
         fields = []
         for i, c in enumerate(fl):
             a = {}
-            f = F(f'D<{slot}>', S.FNAMES[i] if vk == 'named' else None)
+            f = F(f'D<{slot}>', S.fname(i, k, len(fl)) if vk == 'named' else None)
             f.slot = slot
             designated = (kind != 'enum' or k == marked)
             if kind == 'union':
